@@ -43,7 +43,8 @@ NMsg(m) ==
           proof |-> [key |-> m.proof.key, data |-> NDoc(m.proof.data), seq |-> m.proof.seq], from |-> m.from]
     ELSE m
 
-NTx(t) == [msgs |-> [i \in DOMAIN t.msgs |-> NMsg(t.msgs[i])], signers |-> R(t.signers), fee |-> t.fee, exec |-> t.exec]
+NTx(t) == [msgs |-> [i \in DOMAIN t.msgs |-> NMsg(t.msgs[i])], signers |-> R(t.signers), fee |-> t.fee, exec |-> t.exec,
+           fee2 |-> IF "fee2" \in DOMAIN t THEN t.fee2 ELSE 0]
 
 NAct(a) ==
     CASE a.name = "Deliver" -> [name |-> "Deliver", tx |-> NTx(a.tx), result |-> a.result, failIdx |-> a.failIdx, code |-> a.code, offs |-> a.offs]
@@ -102,7 +103,8 @@ NObs(rec) ==
       panic |-> IF "panic" \in DOMAIN rec.act THEN rec.act.panic ELSE FALSE,
       junk  |-> Len(rec.aol.junk) + Len(rec.did.junk) + Len(rec.pnft.junk) + Len(rec.bank.junk),
       spend |-> {[a |-> e.a, d |-> e.d, n |-> e.spendable] : e \in R(rec.bank.bal)},
-      listErrs |-> R(rec.views.pnft.denoms.errs) ]
+      listErrs |-> R(rec.views.pnft.denoms.errs),
+      fillers |-> rec.did.fillers ]         \* bulk registry entries (outside the alphabet) that are still exactly what genesis put there
 
 Observe(rec) ==
     /\ height' = rec.h
@@ -198,6 +200,7 @@ ExportContent(rec) ==
     IF act'.name = "ExportImportBegin" /\ act'.exportOk /\ "genesis" \in DOMAIN rec
     THEN /\ Drift("export-content", LogGen(rec.genesis) = Gen)
          /\ Drift("export-junk", Len(rec.genesis.junk) = 0)
+         /\ Chk("C08", rec.genesis.fillers = obs.fillers)            \* every bulk entry is in the export ...
          /\ Drift("export-duplicates", rec.genesis.nDenoms = Cardinality(Gen.denoms) /\ rec.genesis.nPnfts = Cardinality(Gen.pnfts))
     ELSE TRUE
 
@@ -208,6 +211,7 @@ Conformance ==
     /\ Drift("junk", obs'.junk = 0)
     /\ Drift("spendable", \A e \in obs'.spend : e.n = SpendableAt(CS', e.a, e.d, height'))
     /\ Drift("listErrs", obs'.listErrs = {})
+    /\ Chk(IF act'.name = "ExportImportBegin" THEN "C08" ELSE "C10", obs'.fillers = obs.fillers)   \* ... and no step ever loses or changes one
 
 TraceInit ==
     /\ l = 1
